@@ -60,6 +60,7 @@ inductive Expr where
   | isub (a b : Expr)
   | idiv (a b : Expr)
   | imod (a b : Expr)
+  | ne (a b : Expr)           -- a != b as a boolean value
   deriving DecidableEq, Repr
 
 inductive Addr where
@@ -205,6 +206,10 @@ def eval (env : List Val) : Expr → Option Val
   | .imod a b =>
     match eval env a, eval env b with
     | some (.int x), some (.int y) => if y = 0 then none else some (.int (x.tmod y))
+    | _, _ => none
+  | .ne a b =>
+    match eval env a, eval env b with
+    | some x, some y => some (.bool (decide (x ≠ y)))
     | _, _ => none
 
 inductive AddrRes where
